@@ -21,7 +21,7 @@ EXPLANATION = (
     "decided under C01/C06."
 )
 # obligations added during the build phase (seeding rounds, twins, mutation analysis)
-ADDED_IN_BUILD = ' Also: three scenarios per scorer (ndarray of unknown shape and dtype; any array-like container; (k, width) integer array); no cast of the cuts to an integer dtype before their own dtype was tested (cast-before-dtype-check); signed-differences - the spacing test is decided on differences of a signed type (a signed cast before np.diff / before the test, or a signed-integer dtype test): unsigned cuts cannot wrap around (finding F-24); rank-of-argument - on every path to the kernel the facts about the rank of the argument as given exclude more than two dimensions. min-size-value: the required spacing of each directly implemented scorer equals the reference table (1, 2, p + 1, 1, 1), fitted on (n, p) data and on a 1-D series (p = 1). dtype-exact (F-26): the dtype test that admits cuts excludes timedelta64 (dtype.kind in \'iu\', or the hierarchy test with an explicit exclusion).'
+ADDED_IN_BUILD = ' Also: three scenarios per scorer (ndarray of unknown shape and dtype; any array-like container; (k, width) integer array); no cast of the cuts to an integer dtype before their own dtype was tested (cast-before-dtype-check); signed-differences - the spacing test is decided on differences of a signed type (a signed cast before np.diff / before the test, or a signed-integer dtype test): unsigned cuts cannot wrap around (finding F-24); rank-of-argument - on every path to the kernel the facts about the rank of the argument as given exclude more than two dimensions. min-size-value: the required spacing of each directly implemented scorer equals the reference table (1, 2, p + 1, 1, 1), fitted on (n, p) data and on a 1-D series (p = 1). dtype-exact (F-26): the dtype test that admits cuts excludes timedelta64 (dtype.kind in \'iu\', or the hierarchy test with an explicit exclusion). kernel-dtype-int64: on every path the cuts reach the kernel through an unconditional cast to a 64-bit signed type. compare-before-dtype-check: no value of the cuts is compared before the dtype fact (TypeError for ValueError on non-numeric arrays).'
 EXPLANATION = EXPLANATION + ADDED_IN_BUILD
 
 ASSUMPTIONS = [
